@@ -75,7 +75,10 @@ def main():
     rng = Rng(chk.seed, 18)
     quick = a.tier != "thorough"
     subs = subjects(chk.seed, 60 if quick else 1200)
-    bjobs = [{"id": i, "op": "blueprint", "modules": [{"name": "m", "kind": "validator", "src": s[0]}]} for i, s in enumerate(subs)]
+    # the ledger language of the project cycles v3, v3, v2, v1: applying a parameter must keep it
+    # (the hash published after each step is the hash of the new code *for the declared language*)
+    PLUTUS = ["v3", "v3", "v2", "v1"]
+    bjobs = [{"id": i, "op": "blueprint", "plutus": PLUTUS[i % 4], "modules": [{"name": "m", "kind": "validator", "src": s[0]}]} for i, s in enumerate(subs)]
     bres = common.run_jobs("aiken-run", bjobs, per_job_timeout=300)
     work = []
     for i, s in enumerate(subs):
@@ -160,9 +163,13 @@ def main():
             now_params = [p.get("title") for p in val.get("parameters", [])]
             if now_params != prev_params[1:]:
                 chk.violation("C18|remaining-parameters-are-not-the-tail", {**w, "before": prev_params, "after": now_params})
-            want_hash = hashlib.blake2b(bytes([3]) + bytes.fromhex(val["compiledCode"]), digest_size=28).hexdigest()
+            declared = bp["preamble"].get("plutusVersion", "v3")
+            chk.count("application_steps_under_" + declared)
+            if st["ok"]["preamble"].get("plutusVersion", "v3") != declared:
+                chk.violation("C18|declared-plutus-version-changed-by-apply", {**w, "before": declared, "after": st["ok"]["preamble"].get("plutusVersion")})
+            want_hash = hashlib.blake2b(bytes([int(declared[1:])]) + bytes.fromhex(val["compiledCode"]), digest_size=28).hexdigest()
             if val["hash"] != want_hash:
-                chk.violation("C18|published-hash-is-not-the-hash-of-the-new-code", {**w, "published": val["hash"], "recomputed": want_hash})
+                chk.violation("C18|published-hash-is-not-the-hash-of-the-new-code", {**w, "declared_plutus_version": declared, "published": val["hash"], "recomputed": want_hash})
             # all handlers of one validator share code and hash
             for other in st["ok"]["validators"]:
                 if other["title"].split(".")[:2] == val["title"].split(".")[:2] and (other["compiledCode"] != val["compiledCode"] or other["hash"] != val["hash"]):
